@@ -131,7 +131,7 @@ func (r *Rules) ValidNewView(i Info, height, view uint64, freshOK bool) (bool, s
 			return false, "vote without a valid signature"
 		}
 		if !r.Member(v.Sender.ID) {
-			return false, "vote from a non-member"
+			continue // adds no weight; the member votes must satisfy the rule on their own
 		}
 		if ids[v.Sender.ID] {
 			return false, "duplicate voter"
